@@ -1433,3 +1433,48 @@ func runC01SamePrinting(c *CaseCtx, r *rand.Rand) (res CaseResult) {
 	res.Sample = det
 	return res
 }
+
+// runC08SameKey: Redefine is given a value whose NAME equals a parameter's
+// name but whose type the function cannot use. The parameter stays an input
+// of the redefined function, and the value supplied for it at call time is
+// the one the original function receives.
+func runC08SameKey(c *CaseCtx, r *rand.Rand) (res CaseResult) {
+	res.NonTrivial = true
+	res.Key = "redefine-option-shares-a-key-with-an-input"
+	res.obs("family.same-key", 1)
+	w := NewWorld()
+	spec := FuncSpec{In: []Label{{Name: "n", Type: 0}}, InForm: 1 + r.Intn(2), OutForm: FormPos}
+	if r.Intn(2) == 0 {
+		spec.In = append(spec.In, Label{Type: 1})
+	}
+	tg, err := w.Build(-1, spec, r)
+	if err != nil {
+		res.Skip = "instantiate"
+		return res
+	}
+	det := map[string]interface{}{"target": spec.String()}
+	wrong := Label{Name: "n", Type: 5}
+	ropts := []am.Arg{am.Named(mixCase("n", r), mk(5, w.FreshInput(-1, 0, wrong)).Interface())}
+	o := DoRedefine(w, tg.Func, ropts)
+	res.Evals++
+	if o.Func == nil || o.Err != nil || o.Class == ClsPanic {
+		res.violate("C08", "refused-although-permitted", "Redefine failed although every parameter is permitted: "+firstLine(errStr(o.Err))+o.Panic, det)
+		return res
+	}
+	for k := 1; k <= 4; k++ {
+		args, _, _ := redefinedArgs(w, o.Func, k, r)
+		n0 := w.NumEvents()
+		oc := DoCall(w, o.Func, args)
+		res.Evals++
+		d := map[string]interface{}{"target": spec.String(), "class": oc.Class, "err": firstLine(errStr(oc.Err)), "events": eventsStr(oc.Events)}
+		if oc.Class != ClsOK {
+			res.violate("C08", "redefined-call-fails/"+oc.Class, "the redefined function was given a value for each declared input but failed: "+firstLine(errStr(oc.Err))+oc.Panic, d)
+			continue
+		}
+		for _, msg := range checkBinding(w, w.EventsFrom(n0), BindingOpts{AllowedCalls: map[int]bool{k: true}, MinSeq: n0, Via: declaredInputs(o.Func)}) {
+			res.violate("C01", "binding/"+bindingKind(msg), "redefined function: "+msg, d)
+		}
+	}
+	res.Sample = det
+	return res
+}
